@@ -58,7 +58,8 @@ Definition pair_mem (p : N * N) (l : list (N * N)) : bool :=
           9 the core process died inside the request
           6 an owned task lost its lock (parent kept, agent / executor id gone) without a failure of its executor / agent
           7 roster inconsistent (id twice / owner is not the environment the task was launched for)
-          8 another environment's listing entry changed *)
+          8 another environment's listing entry changed
+          10 a listed environment does not hold exactly the detectors of its hosts *)
 (* the environment that holds the lock on a task (parent role set and ids intact) *)
 Definition lowner (t : task) : option N := if t_idok t then t_owner t else None.
 
@@ -126,7 +127,14 @@ Definition mon04_step (ops : list op) (prev : obs) (o : op) (cur : obs) : list N
              end in
   (* 9: the core process died inside the request (the harness reports status 99) *)
   let c9 := if N.eqb (ob_rc cur) 99 then 9 else 0 in
-  [c9; c7; c6; c3; c4; c5; c8; c12].
+  (* 10: a listed environment does not hold exactly the detectors its hosts belong to (whatever the
+         configuration glue between the core and the inventory answered) *)
+  let c10 := if forallb (fun x => match spec_of (eo_id x) ops with
+                                  | Some c => listN_eqb (eo_dets x) (dedupN (sortN (c_dets c)))
+                                  | None => true
+                                  end) (ob_envs cur)
+             then 0 else 10 in
+  [c9; c7; c6; c3; c4; c5; c8; c10; c12].
 
 Fixpoint mon_walk (f : obs -> op -> obs -> list N) (prev : obs) (ops : list op) (l : list obs) : list N :=
   match ops, l with
